@@ -19,6 +19,7 @@ Not decided: language equivalence of the two text scanners with the documented f
 from __future__ import annotations
 
 import ast
+import re
 
 from .. import ctx, paths
 from ..cfg import CFG
@@ -38,11 +39,30 @@ FACADES = [("tpmstream.io.hex", "Hex"), ("tpmstream.io.swtpm_log", "SWTPMLog"), 
 HEXDIGITS = set(b"0123456789abcdefABCDEF")
 
 
-def module_consts(mod):
+def module_consts(mod, project=None, depth=0):
+    """module-level names bound to literals; with `project`, also names bound to another name that denotes a literal (an
+    alias of a constant of this module or of one imported from a project module)"""
     out = {}
     for st in mod.tree.body:
         if isinstance(st, ast.Assign) and isinstance(st.targets[0], ast.Name) and isinstance(st.value, ast.Constant):
             out[st.targets[0].id] = st.value.value
+    if project is not None and depth < 3:
+        imported = {}
+        for st in mod.tree.body:
+            if isinstance(st, ast.ImportFrom):
+                for a in st.names:
+                    r = project.resolve_name(mod, a.asname or a.name)
+                    if r is not None and r[1] is not None:
+                        v = module_consts(r[0], project, depth + 1).get(r[1])
+                        if v is not None:
+                            imported[a.asname or a.name] = v
+        for st in mod.tree.body:
+            if isinstance(st, ast.Assign) and len(st.targets) == 1 and isinstance(st.targets[0], ast.Name) and isinstance(st.value, ast.Name):
+                v = out.get(st.value.id, imported.get(st.value.id))
+                if v is not None:
+                    out.setdefault(st.targets[0].id, v)
+        for k_, v_ in imported.items():
+            out.setdefault(k_, v_)   # an imported constant is a constant of this module's namespace too
     return out
 
 
@@ -114,7 +134,19 @@ def f1_f2(run, project):
         if fn is None:
             raise AnalysisError(f"F1: {modname}.{cls}.marshal not found")
         sites.append((mod, f"{cls}.marshal", fn, {"marshal"}))
+    # the decoder's own defaults for the options a front-end may spell out (mode, encryption flag)
+    bm = project.module("tpmstream.io.binary.marshal").function("marshal")
+    bpar = [a.arg for a in bm.args.args]
+    bdef = {k: norm(v) for k, v in zip(bpar[len(bpar) - len(bm.args.defaults):], bm.args.defaults)}
     for mod, q, fn, names in sites:
+        fpar = [a.arg for a in fn.args.args] + [a.arg for a in fn.args.kwonlyargs]
+        fdefs = dict(zip([a.arg for a in fn.args.args][len(fn.args.args) - len(fn.args.defaults):], fn.args.defaults))
+        fdefs.update({a.arg: d for a, d in zip(fn.args.kwonlyargs, fn.args.kw_defaults) if d is not None})
+        for opt in ("abort_on_error", "parameter_encryption"):
+            if opt in fpar and opt in fdefs:
+                run.ob("F1", norm(fdefs[opt]) == bdef.get(opt), f"{mod.name.split('.', 2)[-1]}.{q}: default of {opt} is the decoder's",
+                       f"{q} spells out `{opt}={norm(fdefs[opt])}` where the decoder's default is {bdef.get(opt)}: a caller that relies on "
+                       "the default gets the other mode through this front-end", module=mod, node=fn, func=q, construct=f"{q} default of {opt}")
         ps = [p for p in paths.Summariser(mod, fn).paths() if p.end != "raise"]
         run.require(bool(ps), f"F1: {mod.name}.{q} has no completing path")
         kwname = fn.args.kwarg.arg if fn.args.kwarg else None
@@ -141,6 +173,10 @@ def f1_f2(run, project):
             for k in ("root_path", "command_code"):
                 run.ob("F1", kws.get(k) == k, f"{tag}: {k} forwarded", f"{k} is {'dropped' if k not in kws else 'passed as ' + kws[k]}",
                        module=mod, node=p.node or fn, func=q, construct=f"{call_name(c)}({k})")
+            for opt in ("abort_on_error", "parameter_encryption"):
+                if opt in fpar:
+                    run.ob("F1", kws.get(opt) == opt, f"{tag}: {opt} forwarded", f"{opt} is {'dropped' if opt not in kws else 'passed as ' + kws[opt]}",
+                           module=mod, node=p.node or fn, func=q, construct=f"{call_name(c)}({opt})")
             run.ob("F1", kwname is not None and star == [kwname], f"{tag}: **kwargs forwarded (mode, encryption flag)",
                    f"extra keyword arguments are {'not forwarded' if not star else star}", module=mod, node=p.node or fn, func=q,
                    construct=f"{call_name(c)}(**kwargs)")
@@ -189,8 +225,29 @@ def all_paths_return(cfg, node, var):
 
 
 # ------------------------------------------------------------------------------ F3
-def hex_alphabets(mod):
-    return {k for k, v in module_consts(mod).items() if isinstance(v, bytes) and v and set(v) <= HEXDIGITS}
+def hex_alphabets(mod, project=None):
+    """names that denote a hex alphabet in this module: its own constants and constants imported from project modules"""
+    out = {k for k, v in module_consts(mod).items() if isinstance(v, bytes) and v and set(v) <= HEXDIGITS}
+    if project is not None:
+        for st in mod.tree.body:
+            if isinstance(st, ast.ImportFrom):
+                for a in st.names:
+                    r = project.resolve_name(mod, a.asname or a.name)
+                    if r is not None and r[1] is not None:
+                        v = module_consts(r[0]).get(r[1])
+                        if isinstance(v, bytes) and v and set(v) <= HEXDIGITS:
+                            out.add(a.asname or a.name)
+    return out
+
+
+def full_hex_alphabet(mod, project, name):
+    """the bytes a name denotes if it is a hex alphabet of this module (own or imported)"""
+    v = module_consts(mod).get(name)
+    if v is None and project is not None:
+        r = project.resolve_name(mod, name)
+        if r is not None and r[1] is not None:
+            v = module_consts(r[0]).get(r[1])
+    return v if isinstance(v, bytes) else None
 
 
 def f3(run, project):
@@ -200,7 +257,7 @@ def f3(run, project):
     n = 0
     for modname in (HEX, SWTPM, AUTO, PCAP):
         mod = project.module(modname)
-        alph = hex_alphabets(mod)
+        alph = hex_alphabets(mod, project)
         for q, fn in mod.functions().items():
             if not any(isinstance(c, ast.Call) and call_name(c) == "int" and len(c.args) == 2 and isinstance(c.args[1], ast.Constant)
                        and c.args[1].value == 16 for c in walk_no_nested(fn)):
@@ -218,7 +275,34 @@ def f3(run, project):
 
             def valid_on(p, v):
                 # (the one-byte text of an input byte, `bytes([v])`, is tested in place of the byte)
-                return any(p.truth(f"{v} in {a_}") is True or p.truth(f"bytes([{v}]) in {a_}") is True for a_ in alph)
+                if any(p.truth(f"{v} in {a_}") is True or p.truth(f"bytes([{v}]) in {a_}") is True for a_ in alph):
+                    return True
+                # every byte of an expression that contains the operand is tested: all(d in ALPHABET for d in <... v ...>)
+                for at, tv, _n in p.cond:
+                    if not (tv and at.startswith("all(")):
+                        continue
+                    try:
+                        e_ = ast.parse(at, mode="eval").body
+                    except SyntaxError:
+                        continue
+                    g_ = e_.args[0] if isinstance(e_, ast.Call) and e_.args and isinstance(e_.args[0], ast.GeneratorExp) else None
+                    if g_ is None or len(g_.generators) != 1 or g_.generators[0].ifs or not isinstance(g_.generators[0].target, ast.Name):
+                        continue
+                    d_ = g_.generators[0].target.id
+                    el = g_.elt
+                    if isinstance(el, ast.Compare) and len(el.ops) == 1 and isinstance(el.ops[0], ast.In) and norm(el.left) == d_ \
+                            and norm(el.comparators[0]) in alph:
+                        src = g_.generators[0].iter
+                        parts = []
+                        def flat(x):
+                            if isinstance(x, ast.BinOp) and isinstance(x.op, ast.Add):
+                                flat(x.left), flat(x.right)
+                            else:
+                                parts.append(norm(x))
+                        flat(src)
+                        if v in parts:
+                            return True
+                return False
 
             def byte_name(x):
                 if isinstance(x, ast.Name):
@@ -447,6 +531,17 @@ def f5(run, project, L):
            node=det, func=det.name, construct="auto formats")
     hexre = [c for c in walk_no_nested(det) if isinstance(c, ast.Call) and call_name(c) == "re.match"]
     ok = len(hexre) == 1 and isinstance(hexre[0].args[0], ast.Constant) and hexre[0].args[0].value == b"[0-9a-fA-F]{2}"
+    if not hexre:
+        # the same test spelled with a table: both look-ahead bytes are in the alphabet of all hex digits (any letter case)
+        for c_ in walk_no_nested(det):
+            if isinstance(c_, ast.Call) and call_name(c_) == "all" and c_.args and isinstance(c_.args[0], ast.GeneratorExp):
+                g_ = c_.args[0]
+                el = g_.elt
+                if len(g_.generators) == 1 and isinstance(el, ast.Compare) and len(el.ops) == 1 and isinstance(el.ops[0], ast.In) \
+                        and isinstance(el.comparators[0], ast.Name):
+                    tbl = full_hex_alphabet(am, project, el.comparators[0].id)
+                    ok = tbl is not None and set(tbl) == set(b"0123456789abcdefABCDEF")
+                    hexre = [c_]
     run.ob("F5", ok, "hex is recognised by two hex digits (any letter case)", "hex detection pattern changed", module=am,
            node=hexre[0] if hexre else det, func=det.name, construct="auto hex pattern")
     mf = am.function("marshal")
@@ -527,8 +622,9 @@ def f11(run, project):
 
 def f6(run, project):
     mod = project.module(SWTPM)
-    consts = module_consts(mod)
+    consts = module_consts(mod, project)
     want = {"CMD_MARKER": b"SWTPM_IO", "CTRL_MARKER": b"Ctrl", "VALID_HEX": b"0123456789ABCDEF", "VALID_WS": b" \r\n"}
+    TABLES_ = dict(want)
     for k, v in want.items():
         run.ob("F6", consts.get(k) == v, f"{k} = {v!r} (documented swtpm log layout)", f"{k} is {consts.get(k)!r}", module=mod,
                node=mod.tree, func="<module>", construct=f"{k} constant")
@@ -616,12 +712,26 @@ def f6(run, project):
         # canonical atoms: end of input is either the StopIteration handler or `b is None`
         q = paths.Path()
         WRAP = f"bytes([{bv}])"   # `b = next(it, None)` then `b = bytes([b])`: the one-byte text of the input byte is the byte
+        infeasible = False
         for a_, v, n_ in bp.cond:
             if a_.startswith("try@") and "StopIteration" in a_:
                 a_ = EOF
             elif a_ == f"{bv} is None":
                 a_ = EOF
-            q.cond.append((a_.replace(WRAP, bv), v, n_))
+            a_ = a_.replace(WRAP, bv)
+            # a table under another name (an alias, a table imported from a shared module) is the table of that value
+            for tname_ in ("VALID_WS", "VALID_HEX"):
+                for alias_, val_ in consts.items():
+                    if alias_ != tname_ and val_ == TABLES_[tname_] and a_ == f"{bv} in {alias_}":
+                        a_ = f"{bv} in {tname_}"
+            if a_ == f"len({bv}) == 1":
+                # the input byte is always one byte of text
+                if not v:
+                    infeasible = True
+                continue
+            q.cond.append((a_, v, n_))
+        if infeasible:
+            continue
         if q.truth(EOF) is None:
             q.cond.append((EOF, False, None))
         cur = [st_ for st_ in spec if q.truth(f"state == {st_}") is True]
@@ -784,6 +894,44 @@ def f8(run, project):
                 body = lp
         if body:
             break
+    # the same tests spelled with tables: `X in <whitespace table>` is "X is blank" (the table must hold exactly the ASCII
+    # whitespace that bytes.strip() strips - "arbitrary whitespace between and inside pairs"); `all(d in HEX for d in h + l)`
+    # (with the vacuous `len(h + l) == 2`) is "both are in the alphabet"
+    WS_ALL = set(b" \t\n\r\x0b\x0c")
+    mconsts = module_consts(mod, project)
+    alph_names = hex_alphabets(mod, project)
+    rewritten = []
+    for b in body or []:
+        conds, feasible = [], True
+        for a_, v_, n_ in b.cond:
+            m_ = re.fullmatch(r"(\w+) in (\w+)", a_)
+            if m_ and isinstance(mconsts.get(m_.group(2)), bytes) and m_.group(2) not in alph_names:
+                tbl = mconsts[m_.group(2)]
+                run.ob("F8", set(tbl) == WS_ALL, "hex scanner: the blank test knows all ASCII whitespace",
+                       f"`{a_}`: the table {m_.group(2)} = {tbl!r} is not the ASCII whitespace (blank, \\t, \\n, \\r, \\x0b, \\x0c): hex text "
+                       "with the missing whitespace characters between its digits is rejected instead of decoded", module=mod, node=n_ or fn,
+                       func=fn.name, construct="hex whitespace table")
+                conds.append((f"{m_.group(1)}.strip()", not v_, n_))
+                continue
+            m_ = re.fullmatch(r"len\((\w+) \+ (\w+)\) == 2", a_)
+            if m_:
+                if not v_:
+                    feasible = False
+                continue
+            m_ = re.fullmatch(r"all\(\((\w+) in (\w+) for (\w+) in (\w+) \+ (\w+)\)\)", a_)
+            if m_ and m_.group(1) == m_.group(3) and m_.group(2) in alph_names:
+                A_ = sorted(hex_alphabets(mod))[0] if hex_alphabets(mod) else m_.group(2)
+                if v_:
+                    conds += [(f"{m_.group(4)} in {m_.group(2)}", True, n_), (f"{m_.group(5)} in {m_.group(2)}", True, n_)]
+                else:
+                    conds.append((f"{m_.group(4)} in {m_.group(2)}", False, n_))
+                continue
+            conds.append((a_, v_, n_))
+        if feasible:
+            b.cond = conds
+            rewritten.append(b)
+    if body is not None:
+        body = rewritten
     # the two pending characters: the names whose blankness (`X.strip()`) the steps branch on, in the order they are tested
     order_ = []
     for b in body or []:
@@ -801,10 +949,15 @@ def f8(run, project):
         run.info("F8: the hex scanner is not in the two-pending-characters form; the transition table is not applied to this form")
         return
     h, l = pair
-    alph = sorted(hex_alphabets(mod))
-    if len(alph) != 1:
-        raise AnalysisError(f"F8: hex alphabets of {mod.relpath}: {alph}")
-    A = alph[0]
+    alph = sorted(hex_alphabets(mod, project))
+    used = sorted({a_.split(" in ", 1)[1] for b in body for a_, _v, _n in b.cond if " in " in a_ and a_.split(" in ", 1)[1] in alph})
+    if len(used) != 1:
+        raise AnalysisError(f"F8: hex alphabets used by the scanner of {mod.relpath}: {used} (of {alph})")
+    A = used[0]
+    tblA = full_hex_alphabet(mod, project, A)
+    run.ob("F8", tblA is not None and set(tblA) == set(b"0123456789abcdefABCDEF"), "hex scanner: digits of either letter case",
+           f"the scanner's alphabet {A} = {tblA!r} is not the hex digits in both letter cases", module=mod, node=fn, func=fn.name,
+           construct="hex alphabet")
     # which pull a protected block makes: try@<line> -> the pending character it fills
     pull_of = {}
     for t_ in [n_ for n_ in walk_no_nested(fn) if isinstance(n_, ast.Try)]:
@@ -874,7 +1027,7 @@ def f8(run, project):
         run.ob("F8", want == got, f"hex scanner step [{label(b)}]: {got[:50]}",
                f"on the step [{label(b)}] the hex scanner does `{got}`; the text-to-bytes correspondence requires `{want}`",
                module=mod, node=b.node or fn, func=fn.name, construct="hex scanner step")
-    run.require(n >= 7, f"F8: only {n} steps of the hex scanner found")
+    run.require(n >= 6, f"F8: only {n} steps of the hex scanner found")
 
 
 def f9(run, project):
@@ -888,6 +1041,15 @@ def f9(run, project):
     atoms = {a for p in ps for a in View(p).conds()}
     magic = sorted(a for a in atoms if " == b'" in a)
     hexa = sorted(a for a in atoms if a.startswith("re.match(") or a.startswith("re.fullmatch("))
+    if not hexa:
+        # table form: `len(la) == 2 and all(d in HEX for d in la)`; the look-ahead always holds two bytes (F5), so the length
+        # test cannot fail: paths on which it does are dropped, the atom is forgotten
+        lens = sorted(a for a in atoms if a.startswith("len(") and a.endswith(") == 2"))
+        hexa = sorted(a for a in atoms if a.startswith("all(") and " in " in a)
+        if lens:
+            ps = [p for p in ps if not any(a == lens[0] and not v for a, v, _ in p.cond)]
+            for p in ps:
+                p.cond = [c_ for c_ in p.cond if c_[0] != lens[0]]
     mode = sorted(a for a in atoms if a.startswith("truthy ") and a[7:] in [x.arg for x in det.args.args])
     eof = sorted(a for a in atoms if a.startswith("try raises StopIteration"))
     if not (len(magic) == 1 and len(hexa) == 1 and len(mode) == 1 and len(eof) == 1):
